@@ -6,7 +6,6 @@ From GV Require Import Base.Ints Gen.Math Gen.Kernel Model.Mirror
   Proofs.MirrorResumeLoad Proofs.MirrorResumeInv Proofs.MirrorResumeStart Proofs.MirrorResumeOps.
 Import ListNotations.
 Local Open Scope N_scope.
-Set Default Timeout 60.
 
 (** * Small facts *)
 Lemma fold_pm_set_ne ups : forall pm : pmap, ne_pmap pm -> ne_pmap ups ->
